@@ -245,6 +245,8 @@ def is_sym(v):
 def has_sym(v, _depth=0):
     if isinstance(v, (Sym, SymList, SymDict, SymDictItems, SymEnum)):
         return True
+    if type(v).__module__.startswith("pyvc."):
+        return True  # any object of the engine itself (lazy views, interpreted closures): native code must not judge it
     if _depth > 40:
         return False
     if isinstance(v, (str, int, float, bool, type(None), enum.Enum, type)):
